@@ -4,6 +4,16 @@ package simnet
 
 func MonitorsFor(prop string) []Monitor {
 	switch prop {
+	case "C02":
+		return []Monitor{&monC02{}}
+	case "C03":
+		return []Monitor{&monC03{}}
+	case "C04":
+		return []Monitor{&monC04{}}
+	case "C05":
+		return []Monitor{&monC05{}}
+	case "C17":
+		return []Monitor{&monC17{}}
 	}
 	return nil
 }
